@@ -38,6 +38,20 @@ func concValues() ([]interface{}, map[string]reflect.Type, map[string]string) {
 	return vals, tm, nm
 }
 
+// foreignInputs: legal Hessian in forms this library's encoder never writes.
+func foreignInputs() [][]byte {
+	mid := append([]byte{0x34, 0x10}, bytes.Repeat([]byte{0xab}, 16)...)                    // binary, 2-octet length form
+	mid2 := append([]byte{0x35, 0x10}, bytes.Repeat([]byte{0xcd}, 272)...)                  // 272 octets
+	chunked := append(append([]byte{0x41, 0x00, 0x03, 1, 2, 3}, 0x34, 0x05), 4, 5, 6, 7, 8) // non-final chunk + mid form
+	return [][]byte{mid, mid2, chunked,
+		{0x57, 0x90, 0x91, 0x92, 0x5a}, // variable-length untyped list
+		{0x7a, 0x72, 0x06, '[', 'i', 'n', 't', '3', '2', 0x90, 0x91, 0x73, 0x90, 0x92, 0x93, 0x94}, // type by reference
+		{0x52, 0x00, 0x01, 'a', 0x53, 0x00, 0x05, 'h', 'e', 'l', 'l', 'o'},                         // chunked string
+		{0x59, 0x00, 0x01, 0x00, 0x00}, {0x4c, 0, 0, 0, 1, 0, 0, 0, 0}, {0x5f, 0x3f, 0xc0, 0, 0}, // 4-octet long, long, float
+		{0x58, 0x93, 0x91, 0x30, 0x03, 'a', 'b', 'c', 0x4e}, // counted untyped list, mid-form string
+	}
+}
+
 // concInstance: an encoder/decoder pair (direct, or issued by the pools).
 type concInstance struct {
 	enc *hessian.Encoder
@@ -211,10 +225,26 @@ func runConcLoad(seed int64, tier, out string, shards int) {
 	w := newShardWriter(out, "trace", shards)
 	defer w.close()
 	vals, tm, nm := concValues()
+	// what every call returns when run alone: computed over COPIES of the maps, so that the
+	// shared maps are first touched by the concurrent phase itself
+	nmCopy := map[string]string{}
+	for k, v := range nm {
+		nmCopy[k] = v
+	}
+	tmCopy := map[string]reflect.Type{}
+	for k, v := range tm {
+		tmCopy[k] = v
+	}
 	alone := make([][]int, len(vals))
 	for i, v := range vals {
-		b, _ := hessian.ToBytes(v, nm)
+		b, _ := hessian.ToBytes(v, nmCopy)
 		alone[i] = proj.Octets(b)
+	}
+	// legal encodings in wire forms the library's encoder never writes, decoded concurrently
+	foreign := foreignInputs()
+	foreignAlone := make([]interface{}, len(foreign))
+	for i, b := range foreign {
+		foreignAlone[i], _ = hessian.ToObject(b, tmCopy)
 	}
 	r := rand.New(rand.NewSource(seed))
 	rounds := 4
@@ -236,6 +266,11 @@ func runConcLoad(seed int64, tier, out string, shards int) {
 			r    interface{}
 		}
 		logs := make([][]rec, gs)
+		type frec struct {
+			fi int
+			r  interface{}
+		}
+		flogs := make([][]frec, gs) // foreign inputs whose concurrent result differs from the result alone
 		var wg sync.WaitGroup
 		for g := 0; g < gs; g++ {
 			wg.Add(1)
@@ -273,6 +308,14 @@ func runConcLoad(seed int64, tier, out string, shards int) {
 						rc.r = res
 					}
 					logs[g] = append(logs[g], rc)
+					// and one foreign-form input per call, through a pooled decoder
+					fi := rg.Intn(len(foreign))
+					d := dp.Get().(*hessian.Decoder)
+					fr, ferr := d.ReadFrom(&drv.ChoppyReader{B: foreign[fi], Max: 1 + rg.Intn(4)})
+					dp.Return(d)
+					if ferr != nil || !reflect.DeepEqual(fr, foreignAlone[fi]) {
+						flogs[g] = append(flogs[g], frec{fi, fr})
+					}
 				}
 			}(g)
 		}
@@ -292,6 +335,12 @@ func runConcLoad(seed int64, tier, out string, shards int) {
 			pairs := []proj.M{}
 			for k, vi := range rvi {
 				pairs = append(pairs, proj.M{"v": P.Project(vals[vi-1]).JSON(), "r": P.Project(rsamp[k]).JSON()})
+			}
+			// foreign inputs: the differing pairs (result alone, result under load) are handed to TLC
+			for _, fr := range flogs[g] {
+				if len(pairs) < 12 {
+					pairs = append(pairs, proj.M{"v": P.Project(foreignAlone[fr.fi]).JSON(), "r": P.Project(fr.r).JSON()})
+				}
 			}
 			ev := proj.M{"ev": "concload", "g": g, "gs": gs, "calls": cs, "alone": alone, "rvi": rvi,
 				"pairs": pairs, "T": P.Types,
